@@ -212,9 +212,9 @@ theorem closeRequeueStage_np (e9 : Engine) (hok : e9.core.Ok) : e9.closeRequeueS
     (fun en id => Pres.of_core_eq rfl) (vals e10.pendingNonPub) ({ e10 with pendingNonPub := [] } : Engine)) k10).1
   exact failAll_np _ pr.2 e12 k11
 
-theorem handleClosed_np (e : Engine) (hinv : Inv e) : e.handleClosed.2.NP := by
+theorem handleClosedCore_np (e : Engine) (hinv : Inv e) : e.handleClosedCore.2.NP := by
   obtain ⟨hok, h, hD, hS⟩ := hinv
-  unfold Engine.handleClosed
+  unfold Engine.handleClosedCore
   split
   · exact Res.NP.err _
   · simp only []
@@ -1247,6 +1247,22 @@ theorem processAckTimeouts_np : ∀ (fuel : Nat) (e : Engine), e.core.Ok → (En
         have hok2 := ((completeFailure_pres ({ e with timeouts := e.timeouts.erase (id, deadline) } : Engine) id "AckTimeout") hok1).1
         exact n1.fold (ih _ hok2)
       · exact Res.NP.ok
+
+theorem handleClosed_np (e : Engine) (hinv : Inv e) : e.handleClosed.2.NP := by
+  unfold Engine.handleClosed
+  split
+  · exact Res.NP.err _
+  · rename_i hd
+    have hnd : e.state ≠ .disconnected := by simpa using hd
+    have hk := ((processAckTimeouts_hk (e.timeouts.length + 1) e).inv hinv hnd).1
+    have hn := processAckTimeouts_np (e.timeouts.length + 1) e hinv.1
+    generalize Engine.processAckTimeouts (e.timeouts.length + 1) e = x0 at hk hn ⊢
+    obtain ⟨ea, ra⟩ := x0
+    simp only [] at hk hn ⊢
+    have h1 := handleClosedCore_np ea hk
+    generalize ea.handleClosedCore = x1 at h1 ⊢
+    obtain ⟨eb, rb⟩ := x1
+    exact Res.NP.fold hn.ignore h1
 
 theorem serviceCore_np (e : Engine) (cap prefill : Nat) (hcap : 4 ≤ cap) (hinv : Inv e) (h : Extra false [] e.view) :
     (e.serviceCore cap prefill).2.NP := by
